@@ -1,16 +1,16 @@
 //! C14, writer half — failed writes are always reported, never accepted.
 //!
 //! (1) `Serialize::serialize` into a sink that fails after a symbolic byte budget b < size
-//!     returns `Err` and the sink took <= b bytes, which are a prefix of the serialization.
+//!     returns `Err`, the sink took <= b bytes, and no write is attempted after the failed one.
 //! (2) The buffered file writers against a failing file (ghost file under Kani, real
 //!     RLIMIT_FSIZE natively): whenever the fault leaves the file incomplete, creation returns
 //!     `Err`, or a push panics as documented ("May panic from I/O errors" -- that
 //!     path is CUT where the real code calls `unwrap` on the error, `stubs_file::unwrap_failed_cut`),
 //!     or `close()` returns `Err`; `close()` never returns `Ok` for an incomplete file
-//!     (`int_fail`, `raw_fail`). Not decided here (CBMC does not finish / spurious alarms, see
-//!     kvlib/props/c14w.py): creation under a fault, Drop of a writer whose close() failed.
+//!     (`int_fail`, `raw_fail`); creation under a fault returns `Err` (`create_fail`); dropping a
+//!     writer whose close() failed does not panic (`drop_after_fail`).
 use crate::c05::{any_int, any_raw};
-use crate::c12::{same, Env, Snap, BIT};
+use crate::c12::{created, same, Env, Snap, BIT};
 use crate::sym;
 use simple_sds::int_vector::{IntVector, IntVectorWriter};
 use simple_sds::ops::{Push, Vector};
@@ -118,7 +118,7 @@ fn set_fault(env: &mut Env, model: u8, lo: usize, hi: usize) {
 /// writes, size = the complete file, size + hdr = all bytes of a successful run): creation
 /// succeeds and the complete file is impossible. Then either a push panics as documented (path
 /// cut at the real `unwrap`), or `close()` returns Err -- never Ok -- and so does a retry.
-/// The writer is forgotten at the end (its Drop would run the drop glue of io::Error).
+/// The writer is forgotten at the end (its Drop under a fault: `drop_after_fail`).
 pub fn int_fail(w: usize, b: usize, k: usize, model: u8) {
     let mut env = Env::new();
     let size = 8 * (4 + (k * w + 63) / 64);
@@ -126,7 +126,7 @@ pub fn int_fail(w: usize, b: usize, k: usize, model: u8) {
     let mut xs = [0u64; 8];
     let mut i = 0;
     while i < k { xs[i] = sym::u64(); i += 1; }
-    let mut writer = match IntVectorWriter::with_buf_len(env.name(), w, b) { Ok(x) => x, Err(e) => { std::mem::forget(e); assert!(false); return; } };
+    let mut writer = match created(IntVectorWriter::with_buf_len(env.name(), w, b)) { Some(x) => x, None => return };
     // armed after creation (which wrote the 32-byte placeholder): equivalent to arming before it, the
     // fault range starting at 32, and keeps creation free of symbolic error paths
     set_fault(&mut env, model, 32, if model == LIMIT { size } else { size + 32 });
@@ -139,7 +139,7 @@ pub fn int_fail(w: usize, b: usize, k: usize, model: u8) {
     let err2 = failed(writer.close());
     assert!(err1 && err2);
     env.clear_limit();
-    if model == LIMIT { assert!(env.file_len() < size); }
+    assert!(model != LIMIT || env.file_len() < size);
     std::mem::forget(writer);
 }
 
@@ -157,7 +157,7 @@ pub fn raw_fail(buf_bits: usize, ops: &[usize], h: usize, model: u8) {
     let mut header: Vec<u64> = Vec::with_capacity(h + 2);
     let mut j = 0;
     while j < h { placeholder.push(sym::u64()); header.push(sym::u64()); j += 1; }
-    let mut writer = match RawVectorWriter::with_buf_len(env.name(), &mut placeholder, buf_bits) { Ok(x) => x, Err(e) => { std::mem::forget(e); assert!(false); return; } };
+    let mut writer = match created(RawVectorWriter::with_buf_len(env.name(), &mut placeholder, buf_bits)) { Some(x) => x, None => return };
     set_fault(&mut env, model, hdr, if model == LIMIT { size } else { size + hdr });
     env.may_panic(|| {
         let mut j = 0;
@@ -169,13 +169,45 @@ pub fn raw_fail(buf_bits: usize, ops: &[usize], h: usize, model: u8) {
     assert!(writer.len() == bits);
     let err1 = failed(writer.close_with_header(&mut header));
     sym::cover(err1);
-    // (no retry here: a second RawVectorWriter::close() after a failed one makes CBMC report a
-    // spurious __rust_dealloc failure for the empty `Vec::new()` header inside close() -- it does
-    // not reproduce natively -- and takes 10x longer; the retry is checked in `int_fail`)
-    assert!(err1);
+    // retry under the persisting fault, through the other entry point
+    let err2 = failed(writer.close());
+    assert!(err1 && err2);
     env.clear_limit();
-    if model == LIMIT { assert!(env.file_len() < size); }
+    assert!(model != LIMIT || env.file_len() < size);
     std::mem::forget(writer);
+}
+
+/// Creation under a fault that does not even let the placeholder header through (every limit /
+/// budget < 32 bytes): `with_buf_len` returns Err -- no panic, also not from dropping the
+/// half-built writer inside it (real Drop, real drop glue of io::Error).
+pub fn create_fail(w: usize, b: usize, model: u8) {
+    let mut env = Env::new();
+    set_fault(&mut env, model, 0, 32);
+    let err = failed(IntVectorWriter::with_buf_len(env.name(), w, b));
+    assert!(err);
+    env.clear_limit();
+    assert!(env.file_len() < 32);
+    if let Some(c) = env.closes() { assert!(c == 1); }
+}
+
+/// `close()` fails (limit L with 32 <= L < size), then the still open writer is dropped: Drop
+/// ignores all errors and does not panic; the descriptor is closed exactly once.
+pub fn drop_after_fail(w: usize, b: usize, k: usize) {
+    let mut env = Env::new();
+    let size = 8 * (4 + (k * w + 63) / 64);
+    assert!(k <= 8);
+    let mut xs = [0u64; 8];
+    let mut i = 0;
+    while i < k { xs[i] = sym::u64(); i += 1; }
+    let mut writer = match created(IntVectorWriter::with_buf_len(env.name(), w, b)) { Some(x) => x, None => return };
+    set_fault(&mut env, LIMIT, 32, size);
+    env.may_panic(|| { let mut j = 0; while j < k { writer.push(xs[j]); j += 1; } });
+    let err = failed(writer.close());
+    drop(writer);
+    assert!(err);
+    if let Some(c) = env.closes() { assert!(c == 1); }
+    env.clear_limit();
+    assert!(env.file_len() < size);
 }
 
 /// Positive control: a file-size limit of exactly the size of the complete file is enough (the
@@ -184,7 +216,7 @@ pub fn int_limit_exact(w: usize, b: usize, k: usize) {
     let mut env = Env::new();
     let size = 8 * (4 + (k * w + 63) / 64);
     env.set_limit(size);
-    let mut writer = match IntVectorWriter::with_buf_len(env.name(), w, b) { Ok(x) => x, Err(e) => { std::mem::forget(e); assert!(false); return; } };
+    let mut writer = match created(IntVectorWriter::with_buf_len(env.name(), w, b)) { Some(x) => x, None => return };
     let mut v = IntVector::new(w).unwrap();
     let mut i = 0;
     while i < k { let x = sym::u64(); writer.push(x); v.push(x); i += 1; }
